@@ -86,6 +86,51 @@ class CFG:
                     todo.append(m)
         return seen
 
+    def reach_ps(self, sources, avoid_nodes=(), avoid_edges=()):
+        """Path-sensitive forward reachability: remembers the outcome of each atomic test
+        (by its text) along a path and does not take the contradicting edge of a later test
+        with the same text, unless an intervening node may have changed a name it mentions
+        (any store to, or call involving, one of its names kills the fact)."""
+        import re as _re
+
+        avoid_nodes = set(avoid_nodes)
+        avoid_edges = set(avoid_edges)
+        seen = set()
+        out = set()
+        todo = [(s, frozenset()) for s in sources if s not in avoid_nodes]
+        while todo:
+            n, facts = todo.pop()
+            if (n, facts) in seen:
+                continue
+            seen.add((n, facts))
+            out.add(n)
+            if len(seen) > 200000:
+                raise AnalysisError("path-sensitive reachability: state space too large")
+            allowed = None
+            nfacts = facts
+            if n.kind == "test" and n.ast is not None:
+                t = unparse(n.ast)
+                known = dict(facts).get(t)
+                if known is not None:
+                    allowed = "T" if known else "F"
+            elif n.ast is not None and n.kind in ("stmt", "for"):
+                killed = _kill_names(n)
+                if killed:
+                    nfacts = frozenset(
+                        (t, v) for t, v in facts
+                        if not any(_re.search(rf"\b{_re.escape(k)}\b", t) for k in killed)
+                    )
+            for lab, m in n.succ:
+                if (n, lab) in avoid_edges or m in avoid_nodes:
+                    continue
+                if allowed is not None and lab in ("T", "F") and lab != allowed:
+                    continue
+                f2 = nfacts
+                if n.kind == "test" and n.ast is not None and lab in ("T", "F"):
+                    f2 = frozenset(set(nfacts) | {(unparse(n.ast), lab == "T")})
+                todo.append((m, f2))
+        return out
+
     def reachable(self):
         return self.reach([self.entry])
 
@@ -179,6 +224,45 @@ class CFG:
     def test_edges(self, pred, label):
         """[(node,label)] for test nodes whose atomic expression satisfies pred."""
         return [(n, label) for n in self.nodes if n.kind == "test" and pred(n.ast)]
+
+
+def _kill_names(n):
+    """names whose value (or the objects they refer to) node n may change"""
+    a = n.ast
+    out = set()
+    roots = []
+    if n.kind == "for":
+        roots = [a.target]
+        for x in ast.walk(a.target):
+            if isinstance(x, ast.Name):
+                out.add(x.id)
+        calls = [c for c in ast.walk(a.iter) if isinstance(c, ast.Call)]
+    else:
+        if isinstance(a, (ast.FunctionDef, ast.ClassDef)):
+            return {a.name}
+        targets = []
+        if isinstance(a, ast.Assign):
+            targets = a.targets
+        elif isinstance(a, (ast.AugAssign, ast.AnnAssign)):
+            targets = [a.target]
+        elif isinstance(a, ast.Delete):
+            targets = a.targets
+        for t in targets:
+            for x in ast.walk(t):
+                if isinstance(x, ast.Name):
+                    out.add(x.id)
+        calls = [c for c in ast.walk(a) if isinstance(c, ast.Call)]
+    for c in calls:
+        for arg in list(c.args) + [k.value for k in c.keywords]:
+            for x in ast.walk(arg):
+                if isinstance(x, ast.Name):
+                    out.add(x.id)
+        f = c.func
+        while isinstance(f, (ast.Attribute, ast.Subscript)):
+            f = f.value
+        if isinstance(f, ast.Name) and isinstance(c.func, ast.Attribute):
+            out.add(f.id)
+    return out
 
 
 def _size(a):
